@@ -87,7 +87,8 @@ add("C10",
     "commit, inventories re-read with an independent JSON parser, tokens compared in Coq with the model. Search: accepted operation followed by a "
     "failing open/list/commit/reset, or a string read back that differs.",
     "Trusted: Coq kernel, Model/Json.v, harness, Python json. clap's argument decoding is outside. Known findings: borrowed-string readers "
-    "(json-escape-borrowed, validator-json-escape), id trimmed, empty content directory, content directory colliding with inventory.json.",
+    "(json-escape-borrowed, validator-json-escape). Blank / inventory-named content directories and trimmed ids - repaired by d88c1da and "
+    "031a721 - are must-pass regression inputs.",
     "machine-checked proof in Coq (round-trip laws by induction on byte strings) + correspondence on generated strings")
 
 add("C11",
@@ -138,16 +139,18 @@ add("C16",
     "machine-checked proof in Coq (all fault positions of the request programs) + request-level fault enumeration on the S3 stand-in")
 
 add("C17",
-    "PARTIAL. Coq theorems over literal models of the validator fragments the property names (Model/VCode.v): exact cost of "
-    "validate_version_nums (sum of gaps; linear bound refuted with witness v400000000), guards before Inventory::new(..).unwrap(), "
-    "get_version / content_paths unwraps, PrettyPrintSet, ContentPathsIter termination, repository iterator continues after an error, prefix "
-    "hashing cost, Display width - each proved outside the recorded known classes with a witness inside. Correspondence: error counts / panic "
+    "PARTIAL. Coq theorems over literal models of the validator fragments the property names (Model/VCode.v): validate_version_nums is "
+    "total and costs at most 100 E010 errors and 101 iterations per version key for all inputs in both build modes (constant generated "
+    "from the source), Inventory::new(..).unwrap() is guarded for every document, get_version / content_paths unwraps, PrettyPrintSet, "
+    "ContentPathsIter termination, repository iterator continues after an error, prefix hashing cost, Display linear - each proved "
+    "outside the recorded known classes with a witness inside. Correspondence: error counts / panic "
     "sites of the real validator vs the model on three exactly-abstractable families. Search: object roots mutated at byte, JSON and directory "
     "level validated by the real code in child processes under wall-clock and address-space limits; oracle = panic, abort, timeout, memory "
     "blow-up, repository validation not reaching the remaining objects.",
     "Panic freedom, running time and memory of the real process are runtime facts: the theorems cover arithmetic and guard logic only; the rest is "
-    "shown on executed inputs. Known findings: blank id, version gap, empty manifest entry, empty PrettyPrintSet (debug), wide padding, quadratic "
-    "path check, uriparse colon segment.",
+    "shown on executed inputs. Known findings: empty manifest entry, empty PrettyPrintSet (debug), quadratic path check, uriparse colon "
+    "segment. Blank id, version gaps (v400000000, v4294967295) and paddings above 65535 digits - repaired by b116ae5, 719e6a5, f842f41, "
+    "d5a9e2d - are must-pass regression inputs.",
     "machine-checked proof in Coq (cost and guard lemmas) + resource-limited search over mutated objects")
 
 add("C19",
@@ -236,8 +239,9 @@ add("C04",
     "(EIO/ENOSPC/EACCES rotated; all three in the thorough tier) and hit once by SIGINT; outcome class and exit status match the model; "
     "then retry and, in a second copy, reset are run and the results validated with the independent validator and rocfl validate.",
     "Trusted: Coq kernel, Model/FsTree.v + Model/Commit.v, strace, the tree abstraction in vplib/commitlib.py, vplib/ocflv.py. A fault inside a "
-    "partially completed write is modelled as truncate + partial file. Known findings: upgrade-declaration-fault, staged-declaration-fault, "
-    "cleanup-rmdir-fault.",
+    "partially completed write is modelled as truncate + partial file. Known finding: upgrade-declaration-fault. Faults in the staging "
+    "clean-up (rmdir) and in the staged declaration rewrite of a never-committed object - repaired by 9d3a720, 7857f07, 9f4b67d - are "
+    "must-pass regression inputs (Examples C04_retry_after_cleanup_fault / C04_retry_after_staged_declaration_fault).",
     "machine-checked proof in Coq (all fault / stop positions of the commit programs) + single-fault enumeration of the real commit under strace")
 
 add("C05",
